@@ -34,6 +34,12 @@ pub struct Acceptor {
     pub deadlines_us: Vec<u64>,
     pub delay_us: u64,
     pub start_us: u64,
+    /// the task leaves after this many streams (0 = keeps accepting)
+    #[serde(default)]
+    pub quota: usize,
+    /// the task leaves when its accept call hits the deadline instead of reissuing it
+    #[serde(default)]
+    pub leave_on_cancel: bool,
 }
 
 #[derive(Serialize, Deserialize, Clone, Debug)]
@@ -79,14 +85,26 @@ pub fn gen_plan(seed: u64, faulty: bool, tier: Tier) -> Plan {
         })
         .collect();
     let mut acceptors = Vec::new();
+    // "leaving" mode: the first task of each kind stays for good, the others take a few streams
+    // and leave, or leave at their first deadline - whoever polled last must not take the
+    // wake-up for the next stream with it
+    let leaving = rng.chance_pm(350);
     for bidi in [false, true] {
-        for _ in 0..rng.usize(1, 4) {
+        for j in 0..rng.usize(if leaving { 2 } else { 1 }, 4) {
             let nd = rng.usize(1, 5);
-            let cancelling = rng.chance_pm(700);
+            let cancelling = if leaving && j == 0 { rng.chance_pm(300) } else { rng.chance_pm(700) };
+            let (quota, leave_on_cancel) = if leaving && j > 0 {
+                if rng.coin() { (*rng.pick(&[1usize, 1, 2, 3]), false) } else { (0, true) }
+            } else {
+                (0, false)
+            };
+            let cancelling = cancelling || leave_on_cancel;
             acceptors.push(Acceptor {
+                quota,
+                leave_on_cancel,
                 bidi,
                 deadlines_us: (0..nd)
-                    .map(|_| if cancelling { *rng.pick(&[0u64, 0, 1, 50, 300, 1_000, 5_000, 30_000, u64::MAX]) } else { u64::MAX })
+                    .map(|_| if leave_on_cancel { *rng.pick(&[1u64, 50, 300, 1_000, 5_000, 30_000, 150_000]) } else if cancelling { *rng.pick(&[0u64, 0, 1, 50, 300, 1_000, 5_000, 30_000, u64::MAX]) } else { u64::MAX })
                     .collect(),
                 delay_us: *rng.pick(&[0u64, 0, 100, 5_000, 40_000]),
                 start_us: *rng.pick(&[0u64, 0, 10_000, 200_000]),
@@ -115,8 +133,9 @@ fn spawn_acceptor(conn: Connection, a: Acceptor, bag: Arc<Mutex<Bag>>, cancels: 
     tokio::spawn(async move {
         tokio::time::sleep(Duration::from_micros(a.start_us)).await;
         let mut i = 0usize;
+        let mut taken = 0usize;
         loop {
-            if stop.load(Ordering::Relaxed) {
+            if stop.load(Ordering::Relaxed) || (a.quota > 0 && taken >= a.quota) {
                 return;
             }
             let dl = a.deadlines_us[i % a.deadlines_us.len()];
@@ -126,6 +145,9 @@ fn spawn_acceptor(conn: Connection, a: Acceptor, bag: Arc<Mutex<Bag>>, cancels: 
                 match tokio::time::timeout(dur, conn.accept_bi()).await {
                     Err(_) => {
                         cancels.fetch_add(1, Ordering::Relaxed);
+                        if a.leave_on_cancel {
+                            return;
+                        }
                         // a zero deadline polls the call exactly once; let simulated time move
                         // (a pure yield loop would keep the paused clock from ever advancing)
                         tokio::time::sleep(Duration::from_micros(200)).await;
@@ -135,6 +157,7 @@ fn spawn_acceptor(conn: Connection, a: Acceptor, bag: Arc<Mutex<Bag>>, cancels: 
                     Ok(Ok((send, mut recv))) => {
                         let id = recv.id().into_u64();
                         bag.lock().unwrap().accepted.push((id, true));
+                        taken += 1;
                         let bag = bag.clone();
                         tokio::spawn(async move {
                             let _keep = send;
@@ -147,6 +170,9 @@ fn spawn_acceptor(conn: Connection, a: Acceptor, bag: Arc<Mutex<Bag>>, cancels: 
                 match tokio::time::timeout(dur, conn.accept_uni()).await {
                     Err(_) => {
                         cancels.fetch_add(1, Ordering::Relaxed);
+                        if a.leave_on_cancel {
+                            return;
+                        }
                         tokio::time::sleep(Duration::from_micros(200)).await;
                         continue;
                     }
@@ -154,6 +180,7 @@ fn spawn_acceptor(conn: Connection, a: Acceptor, bag: Arc<Mutex<Bag>>, cancels: 
                     Ok(Ok(mut recv)) => {
                         let id = recv.id().into_u64();
                         bag.lock().unwrap().accepted.push((id, false));
+                        taken += 1;
                         let bag = bag.clone();
                         tokio::spawn(async move {
                             let r = read_all(&mut recv).await;
@@ -388,7 +415,7 @@ pub fn def() -> PropertyDef {
     PropertyDef {
         id: "C08",
         scenarios: vec![Box::new(Typed(C08E2E { faulty: false })), Box::new(Typed(C08E2E { faulty: true }))],
-        rule: "Each run: real client and server with a concurrent-stream limit of 4/5/8/16; the opener (client or server) opens 1..2x (quick) / 1..3x (thorough) the limit streams (all uni, all bidi or mixed; in one burst or spread over 100 ms), each carrying a unique tag of 14..2000 bytes, and finishes them; the other side accepts with 1-4 tasks per kind, each with its own start time, per-call delay (0..40 ms) and a cycle of deadlines (0 = polled exactly once, 1 us .. 30 ms, or none) after which the pending accept future is dropped and reissued. Oracle (bag model over the recorded history): every value returned by an accept call is a stream the peer opened, of the right kind, returned exactly once; every opened stream is returned within 120 s simulated; the bytes read from it are the tag it was opened with. Fault batch: loss / duplication / reordering (a connection killed by the faults is inconclusive). Probe: number of accept calls cancelled. Non-trivial = at least one stream opened (and a fault fired in the fault batch); distinct = distinct plan hashes.",
+        rule: "Each run: real client and server with a concurrent-stream limit of 4/5/8/16; the opener (client or server) opens 1..2x (quick) / 1..3x (thorough) the limit streams (all uni, all bidi or mixed; in one burst or spread over 100 ms), each carrying a unique tag of 14..2000 bytes, and finishes them; the other side accepts with 1-4 tasks per kind, each with its own start time, per-call delay (0..40 ms) and a cycle of deadlines (0 = polled exactly once, 1 us .. 30 ms, or none) after which the pending accept future is dropped and reissued; in a third of the runs all but one task per kind leave after 1-3 streams or at their first deadline (the task that polled last must not take the next wake-up with it). Oracle (bag model over the recorded history): every value returned by an accept call is a stream the peer opened, of the right kind, returned exactly once; every opened stream is returned within 120 s simulated; the bytes read from it are the tag it was opened with. Fault batch: loss / duplication / reordering (a connection killed by the faults is inconclusive). Probe: number of accept calls cancelled. Non-trivial = at least one stream opened (and a fault fired in the fault batch); distinct = distinct plan hashes.",
         assumptions: vec![
             "current-thread runtime only: parallel acceptors are modelled as interleavings at await points (the multi-thread half of the quantifier cannot be made replayable and is not claimed)",
             "quinn/rustls/tokio executed for real but trusted",
